@@ -839,9 +839,14 @@ func TestC19HttpE2E(t *testing.T) {
 				case <-time.After(2 * time.Millisecond):
 				}
 			}
+			// ... and the refusal concerns this envelope only: the sender's connection stays registered
+			kept := false
+			for _, a := range gohA.VerifHttpConns() {
+				kept = kept || a == strings.TrimPrefix(srvD.URL, "http://")
+			}
 			em.Emit(Rec{Idx: idx, Kind: "http-write-refused", Desc: map[string]any{"variant": variant, "what": "the far end answers " + variant[:3] + " and does not deliver; nobody ever reads the envelope"},
-				Obs: map[string]any{"write_err": fmt.Sprint(werr)},
-				Coq: fmt.Sprintf("CAssert 3 %s", coqBool(werr != nil)), Tags: []string{"http:write-refused"}})
+				Obs: map[string]any{"write_err": fmt.Sprint(werr), "connection_kept": kept},
+				Coq: fmt.Sprintf("CAssert 3 %s", coqBool(werr != nil && kept)), Tags: []string{"http:write-refused"}})
 			em.Marker("end", idx)
 			gohD.Cancel()
 			srvD.CloseClientConnections()
